@@ -91,4 +91,8 @@ theorem announce_gets_a_feed (E : Env) (src dst : Id) (inc : Nat) (c : Ctx) :
     reactToMessage E ⟨src, inc, dst, .announce⟩ c = sendMessage E src .feed c := by
   simp [reactToMessage]
 
+/-- the Feed that answers an Announce offers members: the estimate of how many fit never drops below one (over the
+    constant the translator reads from `send_message`) — with zero a joiner would learn nobody -/
+theorem feed_offers_members : 1 ≤ Gen.feedMinEstimate := by decide
+
 end Foca.C02
